@@ -160,8 +160,10 @@ def check(case):
         ref = dict(q=prim[0])
     else:
         ref = {}
-    for nm in names:
+    keep_field = [np.array(d, dtype=float, copy=True) for d in field.data]
+    for nm in names + names[::-1]:          # every name, then again in reverse order on the same field: evaluating one variable must not change another
         val = np.asarray(field.phydata(nm), dtype=float)
+        require(all(np.array_equal(a, b) for a, b in zip(field.data, keep_field)), "var-mutates-field", "evaluating %s.%s modified the conservative data of the field" % (name, nm))
         vector = (name == "euler2d" and nm == "velocity")
         require(val.shape == ((2, n) if vector else (n,)), "var-shape", "%s.%s has shape %r, expected one value per cell (%d cells)" % (name, nm, val.shape, n))
         require(np.all(np.isfinite(val)), "var-finite", "%s.%s is not finite" % (name, nm))
